@@ -27,3 +27,10 @@ chk("C03", "stateful differential testing against a freshly built manager plus a
     "derivation from the tasks' public fields (two-sided, stronger than verify()) and verify() must pass; then every query and the "
     "reaction to follow-up assignments are compared with fresh managers built (in two orders) from only the surviving definitions.",
     TRUST, "DESIGN.md 4/C03")
+
+chk("C05", "exhaustive node-class x slot enumeration (introspected) plus generated terms, structural and metamorphic oracle",
+    "Every concrete node class found by introspection x every operand slot x 8 filler shapes (enumerated), plus generated terms: "
+    "_get_dependencies() must be a set equal (both inclusions) to the AST-derived location set, and perturbing any location through "
+    "its ref that changes the mirrored value must hit a reported dependency and update a task defined by the expression. A node class "
+    "without a slot-table entry fails the check rather than being skipped.",
+    TRUST, "DESIGN.md 4/C05", engine="hypothesis + enumeration")
